@@ -34,7 +34,10 @@ def compare_step(st, real, model):
         if real['sig'] != model['sig']:
             diffs.append(('sig', real['sig'], model['sig']))
         return diffs
-    if canon(real['r']) != canon(model['r']):
+    # two-phase form: the whole hash is computed first, so when several nodes fail, another error than in a plain call may surface first;
+    # the values are compared when both return (the oracle judges which errors may surface)
+    two_phase_err = st.get('two_phase') and ('err' in real['r'] or 'err' in model['r'])
+    if canon(real['r']) != canon(model['r']) and not two_phase_err:
         diffs.append(('value' if t == 'call' else 'hash', real['r'], model['r']))
     if t == 'call' and real['sig'] != model['sig']:
         diffs.append(('sig', real['sig'], model['sig']))
